@@ -194,10 +194,13 @@ enum PolicyStateKind<C> {
     },
     // mpc computation is executing in a separate tokio task
     Executing {
-        // use Notify because we notify in both directions, first from the `cancel` method
-        // to the tokio task to signal cancellation, and then the other direction if the
-        // cancel error has been sent to the output URL
+        // Notifies the spawned tokio task of a cancellation.
         cancel: Arc<Notify>,
+        // Notified by the spawned tokio task once it has sent its one notification (the result
+        // or the cancel error) to the output URL. This must not be the same `Notify` as
+        // `cancel`: a `cancel()` that runs before the task has registered its interest would
+        // otherwise consume its own notification and return without cancelling anything.
+        cancelled: Arc<Notify>,
     },
 }
 
@@ -792,8 +795,10 @@ where
                 let tmp_dir = self.tmp_dir_path.clone();
                 let cmd_tx = self.cmd_tx.clone();
                 let cancel = Arc::new(Notify::new());
+                let cancelled = Arc::new(Notify::new());
                 self.state_kind = PolicyStateKind::Executing {
                     cancel: Arc::clone(&cancel),
+                    cancelled: Arc::clone(&cancelled),
                 };
                 let fut = async move {
                     let mpc_fut = async {
@@ -846,9 +851,11 @@ where
                             if let Err(err) = send_cancel(channel.client, policy).await {
                                 error!(%err, "unable to send cancelled error to output destination")
                             }
-                            cancel.notify_one();
                         }
-                    )
+                    );
+                    // Nothing is sent to the output destination after this point. The permit
+                    // is stored if `cancel()` is not waiting yet.
+                    cancelled.notify_one();
                 };
 
                 tokio::spawn(fut.instrument(span));
@@ -1083,12 +1090,12 @@ where
                 channel: Channel { client, .. },
                 ..
             } => (client, policy),
-            PolicyStateKind::Executing { cancel } => {
+            PolicyStateKind::Executing { cancel, cancelled } => {
                 // send_cancel is called in spawned mpc tokio task
                 cancel.notify_one();
-                // when this is notified, the error has been sent to output
-                // destination if available
-                cancel.notified().await;
+                // when this is notified, the error (or the result, if the run had already
+                // finished) has been sent to output destination if available
+                cancelled.notified().await;
                 let _ = ret.send(Ok(()));
                 return;
             }
